@@ -304,7 +304,7 @@ def resolve_layer(repo: Repo, mod, call: ast.Call, depth: int = 0) -> Optional[L
         return Layer(call, "block", "same", c, c, f"size-preserving {short}", True)
     if short == "AFModule":
         c = _txt(_arg(call, 0, ("N",)))
-        return Layer(call, "af", "same", None, None, "size-preserving attention-feature module", True)
+        return Layer(call, "af", "same", c, c, "size-preserving attention-feature module", True)
     if short in SAME_BLOCKS:
         return Layer(call, "act", "same", None, None, f"pointwise {short}", True, act=short)
     # a wrapper class of the same module: one conv built from its constructor parameters
@@ -458,12 +458,25 @@ def rule_conv(repo: Repo, rep: Report) -> int:
             prev_out: Optional[str] = None
             last_act = None
             unknown = False
+            cur_ch: Optional[str] = None  # channel count (as written) the running tensor has, where known
+            fwd_ = ci.find_method("forward")
+            # lists whose forward concatenates side information between the layers are no plain chains
+            plain_chain = fwd_ is not None and not any(isinstance(c_, ast.Call) and (call_name(c_) or "").split(".")[-1] in ("cat", "concat", "concatenate", "stack", "hstack") for c_ in ast.walk(fwd_.node))
             for e in elts:
                 lay = resolve_layer(repo, init.module, e)
                 if lay is None:
                     rep.undecided("CONV", init, f"{cname}.{attr}: {unparse(e)[:70]}", "layer type is not summarised", node=e)
                     unknown = True
+                    cur_ch = None
                     continue
+                # a channel-wise modulation module (AFModule) is built for the channel count of the tensor it receives: with
+                # another width it silently pads / trims its mask, and part of its weights never gets a gradient
+                if plain_chain and lay.kind == "af" and lay.cin is not None and cur_ch is not None and lay.cin != cur_ch:
+                    rep.violation("CONV", init, f"{cname}.{attr}: {unparse(e)[:70]}", f"built for {lay.cin} channels but the layer before it produces {cur_ch}: the module pads / trims its channel mask silently, the shapes still fit, and the weights belonging to the surplus channels never receive a gradient", node=e)
+                if lay.kind in ("block", "conv", "tconv") and lay.cout is not None:
+                    cur_ch = lay.cout
+                elif lay.kind not in ("af", "act"):
+                    cur_ch = None
                 n_layers += 1
                 if lay.ok is None:
                     rep.undecided("CONV", init, f"{cname}.{attr}: {unparse(e)[:70]}", lay.detail, node=e)
